@@ -1,4 +1,5 @@
 import Robust.Stream.Inv
+import Robust.Gen.Locks
 /-!
 C08 — output stream next-message lookup: the invariant is preserved by every operation, `Get`
 refines a plain map, `GetNext`'s two phases meet their specification, and the system-level
@@ -532,5 +533,20 @@ theorem r7 : Reach ⟨(readerStep os6 t0).1, [(readerStep os6 t0).2]⟩ :=
     (Step.reader ⟨os6, [t0]⟩ 0 t0 none rfl rfl)
 
 end Regression
+
+/-- regenerated: the lock operations of every function of outputstream.go, in source order.  The atomic steps
+of the transition system above are these lock regions (read off the code by hand); any change to the locking
+structure of the file — a new fast path outside a region, a region split or merged — changes this table and
+with it the justification of the model's step boundaries. -/
+theorem C08_lock_regions : Robust.Gen.Locks.streamRegions = [
+  ("internal/outputstream:OutputStream.Add", ["OutputStream.messagesMu.Lock", "defer OutputStream.messagesMu.Unlock", "OutputStream.cacheMu.Lock", "OutputStream.cacheMu.Unlock"]),
+  ("internal/outputstream:OutputStream.Delete", ["OutputStream.messagesMu.Lock", "defer OutputStream.messagesMu.Unlock", "OutputStream.cacheMu.Lock", "OutputStream.cacheMu.Unlock", "OutputStream.cacheMu.Lock", "OutputStream.cacheMu.Unlock"]),
+  ("internal/outputstream:OutputStream.Get", ["OutputStream.messagesMu.RLock", "defer OutputStream.messagesMu.RUnlock"]),
+  ("internal/outputstream:OutputStream.GetNext", ["OutputStream.messagesMu.RLock", "OutputStream.messagesMu.RUnlock", "OutputStream.messagesMu.RUnlock", "OutputStream.messagesMu.RUnlock", "OutputStream.messagesMu.Lock", "OutputStream.messagesMu.Unlock", "OutputStream.messagesMu.Unlock", "OutputStream.messagesMu.Unlock", "OutputStream.messagesMu.Unlock"]),
+  ("internal/outputstream:OutputStream.InterruptGetNext", ["OutputStream.messagesMu.Lock", "defer OutputStream.messagesMu.Unlock"]),
+  ("internal/outputstream:OutputStream.LastSeen", ["OutputStream.messagesMu.RLock", "defer OutputStream.messagesMu.RUnlock"]),
+  ("internal/outputstream:OutputStream.getUnlocked", ["OutputStream.cacheMu.RLock", "OutputStream.cacheMu.RUnlock", "OutputStream.cacheMu.Lock", "OutputStream.cacheMu.Unlock"]),
+  ("internal/outputstream:OutputStream.reset", ["OutputStream.messagesMu.Lock", "defer OutputStream.messagesMu.Unlock"])
+] := by decide
 
 end Robust.Props.C08
